@@ -61,7 +61,17 @@ impl TlsListener {
                 break;
             }
             prebuffer.extend_from_slice(&tmp[..n]);
+            #[cfg(trusttunnel_verif)]
+            crate::verif_emit!("PeekRead", "\"n\":{},\"total\":{}", n, prebuffer.len());
         }
+
+        #[cfg(trusttunnel_verif)]
+        crate::verif_emit!(
+            "PeekDone",
+            "\"found\":{},\"total\":{}",
+            client_random.is_some(),
+            prebuffer.len()
+        );
 
         Ok((PrebufferedTcpStream::new(prebuffer, stream), client_random))
     }
@@ -149,6 +159,8 @@ impl AsyncRead for PrebufferedTcpStream {
             let end = start + to_copy;
             buf.put_slice(&self.prebuffer[start..end]);
             self.prebuffer_pos = end;
+            #[cfg(trusttunnel_verif)]
+            crate::verif_emit!("TlsReadPre", "\"from\":{},\"to\":{}", start, end);
             return Poll::Ready(Ok(()));
         }
 
@@ -215,5 +227,32 @@ impl TlsAcceptor {
         };
 
         self.inner.into_stream(tls_config).await
+    }
+}
+
+#[cfg(trusttunnel_verif)]
+impl TlsListener {
+    /// Verification door: `extract_client_random` as (status name, value)
+    pub(crate) fn verif_extract_client_random(data: &[u8]) -> (&'static str, Option<Vec<u8>>) {
+        match Self::extract_client_random(data) {
+            ClientRandomExtraction::Found(cr) => ("Found", Some(cr)),
+            ClientRandomExtraction::NeedMoreData => ("NeedMoreData", None),
+            ClientRandomExtraction::NotFound => ("NotFound", None),
+        }
+    }
+
+    /// Verification door: the peek alone (no rustls acceptor behind it)
+    pub(crate) async fn verif_peek(
+        stream: TcpStream,
+    ) -> io::Result<(PrebufferedTcpStream, Option<Vec<u8>>)> {
+        Self::read_client_random_and_wrap_stream(stream).await
+    }
+}
+
+#[cfg(trusttunnel_verif)]
+impl PrebufferedTcpStream {
+    /// Verification door: (prebuffer length, replay position)
+    pub(crate) fn verif_prebuffer(&self) -> (usize, usize) {
+        (self.prebuffer.len(), self.prebuffer_pos)
     }
 }
